@@ -384,10 +384,9 @@ def _reads(cfg: CFG, nid: int, name: str) -> bool:
 # ---------------------------------------------------------------------------------------------
 def _view(prog: Program, qual: str) -> FuncInfo:
     """Analysis view: private helpers spliced in, single-assignment locals substituted (if/else kept)."""
-    from ..engine.normalize import normalize
-    from ._c15_util import splice_tail_helpers
+    from ._c15_util import analysis_view
 
-    return normalize(prog, splice_tail_helpers(prog, prog.func(qual))[0], diamonds=False)
+    return analysis_view(prog, prog.func(qual))
 
 
 def _float_param(fn: FuncInfo, position: int) -> str:
@@ -960,10 +959,23 @@ def check_sign(run: Run, prog: Program) -> None:
               instance=f"{ib.qual}: supply and consume assign the same bound tables")
     pairs = 0
     for k in sorted(set(sup_t) & set(con_t)):
-        (sv, node), (cv, _n2) = sup_t[k][0], con_t[k][0]
-        if u(sv) == u(cv) and sv is cv:
-            continue  # not selected by the flag at all
-        for _once in (0,):
+        (sv, node), cv = sup_t[k][0], con_t[k][0][0]
+        if sv is cv:
+            continue  # a cell that is not selected by the flag at all
+        pairs += 1
+        sides = (_leaves(bound_form(sv)), _leaves(bound_form(cv)))
+        oriented = all(sign == "neg" and "lower" in txt for sign, txt in sides[0]) \
+            and all(sign == "pos" and "upper" in txt for sign, txt in sides[1])
+        run.check(oriented, "C01.S", ib.qual, f"{k}: supply uses -<lower bounds>, consume <upper bounds>",
+                  f"the arm taken for supply requests does not bound `{k}` by the negated lower bounds (or the "
+                  "consume arm not by the upper bounds): the two directions are exchanged",
+                  node=node, file=ib.file, instance=f"{ib.qual}: {k} supply arm uses negated lower bounds")
+        run.check(dual_form(sv) == bound_form(cv), "C01.S", ib.qual,
+                  f"{k} = {u(sv)}",
+                  f"the supply bound `{k} = {u(sv)}` is not the mirror image "
+                  f"(upper<->lower, min<->max, negated) of the consume bound `{u(cv)}`",
+                  node=node, file=ib.file,
+                  instance=f"{ib.qual}: {k} supply is the dual of consume")
     if pairs < 4:
         raise AnalysisError(f"{ib.qual}: only {pairs} supply/consume bound pairs found")
 
@@ -1027,16 +1039,14 @@ def check_b(run: Run, prog: Program) -> None:
     parameters typed `Request` / `DistributionResult`; call arguments are matched to the callee's
     parameter names (keyword == positional); the reported power is what actually flows into the
     Success / PartialFailure fields."""
-    from ..engine.normalize import normalize
     from ..engine.terms import flow_eval
     from ._c15_util import (
-        all_ctors, bound_args, ctor_kind, match_send, method_params, plain_def_value, result_fields,
-        splice_tail_helpers, typed_param,
+        all_ctors, bound_args, ctor_kind, match_send, method_params, plain_def_value, result_fields, typed_param,
     )
     from ..engine.util import reaching_defs
 
     def norm(q: str) -> FuncInfo:
-        return normalize(prog, splice_tail_helpers(prog, prog.func(q))[0], diamonds=False)
+        return _view(prog, q)
 
     def typed(f: FuncInfo, tname: str, default: str) -> str:
         p = typed_param(f, tname, default)
